@@ -21,7 +21,12 @@ def obligations(tier):
     for sc in []:   # aws_readkeys error path: not decided -- every variant of this harness ran out of memory/time (string functions over the 1024-byte line buffer); see DESIGN.md
         obs.append(dict(name="aws-readkeys-secret-zero-at-free-scenario%d" % sc, harness="wipe.c", entry="h_wipe", defs=["WHICH=3", "SCEN=%d" % sc], cpu=[], srcs=MZ, unwind=30, unwindset=U + ["aws_readkeys#0:4"], replace=["free:checked_free"], timeout=to, replay="model",
                         claim="aws_readkeys failing after the secret line was read (second line: unknown name, duplicate secret, no separator, missing EOL, empty name, end of file without the id, or I/O error): the heap copy of the secret is all-zero when freed", bounds="a fixed 4-character secret; 7 fixed failing continuations (one per obligation)", stubs=["fopen/fgets/ferror/fclose -> scripted symbolic file", "strdup/strcspn/strchr/strcmp/strlen: CBMC models"]))
+    # Diffie-Hellman: BIGNUMs derived from the private exponent / blinding value are released with BN_clear_free (C10 model, taint bits)
+    for o in _load("C10").obligations(tier):
+        if o["name"].startswith("dh-modexp-") and ("ok-resultlen255" in o["name"] or "fail-at-call" in o["name"]):
+            o = dict(o); o["harness"] = "../C10/" + o["harness"]; o["name"] = "dh-secrets-cleared-" + o["name"][10:]
+            obs.append(o)
     return obs
 TRUSTED = ["CBMC 6.11 C semantics (volatile function pointer of insecure_memzero resolved by CBMC)", "cadical"]
-ASSUMPTIONS = ["compiler elision of the wipes is outside a source-level claim", "Diffie-Hellman BIGNUM clearing is decided under C10's BN model (see C10 evidence)"]
+ASSUMPTIONS = ["compiler elision of the wipes is outside a source-level claim", "Diffie-Hellman: clearing is decided at the level of the BN API (BN_clear_free vs BN_free on tainted values); what BN_clear_free does inside OpenSSL is outside /repo"]
 EXPLANATION = ""
